@@ -469,8 +469,9 @@ def _write_evidence(prop, tier, seed, results, new_violations, known_hit, wall, 
         "wall_s": round(wall, 2),
         "violations": len(new_violations),
     }
-    os.makedirs(os.path.join(VERIF, "evidence"), exist_ok=True)
-    core.json_dump(ev, os.path.join(VERIF, "evidence", "%s.json" % prop))
+    evdir = os.environ.get("VERIF_EVIDENCE_DIR") or os.path.join(VERIF, "evidence")
+    os.makedirs(evdir, exist_ok=True)
+    core.json_dump(ev, os.path.join(evdir, "%s.json" % prop))
 
 
 def main():
@@ -498,6 +499,9 @@ def main():
         return child_main(a)
     if a.shrink:
         return shrink_main(a)
+    if a.prop == "selftest-mutants":
+        from vsim import mutants
+        return mutants.main(a)
     if a.prop and a.prop.startswith("selftest"):
         from vsim import selftest
         return selftest.main(a)
